@@ -742,6 +742,16 @@ def gen_mmc(rng, real=False):
         cfg.update(mixture=rng.choice(["gm", "bgm", "default"]), m=rng.randint(1, 2),
                    Xtr=[[float(rng.randint(-3, 3)), float(rng.randint(-3, 3))] for _ in range(ntr)],
                    Xq=[[float(rng.randint(-3, 3)), float(rng.randint(-3, 3))] for _ in range(nq)])
+        if ntr >= 4 and rng.random() < 0.4:
+            # repeated measurements: every mixture component collapses onto one point recorded several times (minimal
+            # covariance, huge precision); the points themselves are queried (seed R11H06)
+            m = rng.randint(2, min(3, ntr // 2))
+            d = rng.choice([2, 3, 5])
+            pts = [[round(rng.uniform(-5, 5), 2) for _ in range(d)] for _ in range(m)]
+            cfg.update(mixture="gm", m=m, weight_mode=rng.choice(["similarities", "similarities", "responsibilities"]),
+                       Xtr=[list(pts[i % m]) for i in range(ntr)],
+                       Xq=[list(pts[i % m]) for i in range(m)] + [[round(rng.uniform(-5, 5), 2) for _ in range(d)] for _ in range(nq)],
+                       repeated_measurements=True)
     return cfg
 
 
